@@ -45,7 +45,7 @@ PROPS = {
         'native': 'c01', 'native_arg': {'prop': 'C02'},
         'level': 'proof',
         'explanation': 'merge: correct becomes the conjunction for eligible feedback and is untouched otherwise; '
-                       'finalize: correct is overridden to True only when nothing was shown. Composition over all '
+                       'finalize: the final correct is the conjunction merge accumulated, on every path. Composition over all '
                        'feedback is the bounded stand-in B-resolve.',
         'trusted_base': ['the resolve() loop composition: bounded stand-in B-resolve only'],
     },
@@ -270,6 +270,6 @@ PROPS = {
                        'two handlers and of the next execution through the guarded hook points on real threads.',
         'trusted_base': ['InterruptableThread.start/join/is_alive/terminate and ctypes async exception delivery: abstract callees',
                          '_stop_patches (verified under C04/C05) and _capture_exception (bounded under C04) as assumed contracts',
-                         'thread interleavings: only the 5 forced orderings x 5 programs of the bounded stand-in'],
+                         'thread interleavings: only the 5 forced orderings x 9 programs of the bounded stand-in'],
     },
 }
